@@ -337,18 +337,29 @@ def to_signed(v, w):
 
 
 class Design:
-    def __init__(self, text, data_files=None, rng=None, t0_policy="settle"):
+    """Values are two-state integers. Every variable and memory word additionally carries an `x` flag: "this value is not
+    defined by the text" (no initialiser, uninitialised memory word, out-of-range index, or computed from / under the control
+    of such a value). A flagged object holds the value the hardware would hold if undefined storage powered up as 0 (what an
+    FPGA does and what the reference simulator assumes), so control flow continues like the synthesised design, and the flag
+    spreads conservatively: an expression that READS a flagged object is flagged, and every assignment controlled by a flagged
+    condition (in the taken and in the not-taken branches) is flagged. Flagged values are never compared."""
+
+    def __init__(self, text, data_files=None, rng=None, t0_policy="settle", glitch=False):
+        self.glitch = glitch
         self.ast = parse(text)
-        self.vars = {}       # name -> {"width","signed","val"}
-        self.mems = {}       # name -> {"width","depth","words":[..]}
-        self.procs = []      # {"kind": assign|comb|sync, ...}
+        self.vars = {}       # name -> {"width","signed","val","x"}
+        self.mems = {}       # name -> {"width","depth","words":[..],"xs":[..]}
+        self.procs = []
         self.rng = rng
         self.t0_policy = t0_policy
         self.data_files = data_files or {}
         self.inputs = set()
+        self.tflag = False
+        self.ctx = 0
         inits = []
         for p in self.ast["ports"]:
-            self.vars[p["name"]] = {"width": p["width"], "signed": p["signed"], "val": 0 if p["dir"] == "input" else (X if p["kind"] == "reg" else X)}
+            self.vars[p["name"]] = {"width": p["width"], "signed": p["signed"], "val": 0, "x": p["dir"] != "input", "kind": p["kind"],
+                                    "dir": p["dir"]}
             if p["dir"] == "input":
                 self.inputs.add(p["name"])
             if p["init"] is not None:
@@ -356,11 +367,13 @@ class Design:
         for it in self.ast["items"]:
             if it[0] == "decl":
                 d = it[1]
-                self.vars[d["name"]] = {"width": d["width"], "signed": d["signed"], "val": X}
+                if d["name"] in self.vars:
+                    raise VError("identifier %r declared twice" % d["name"])
+                self.vars[d["name"]] = {"width": d["width"], "signed": d["signed"], "val": 0, "x": True, "kind": d["kind"], "dir": None}
                 if d["init"] is not None:
                     inits.append((d["name"], d["init"]))
             elif it[0] == "memory":
-                self.mems[it[1]] = {"width": it[2], "depth": it[3], "words": [X] * it[3]}
+                self.mems[it[1]] = {"width": it[2], "depth": it[3], "words": [0] * it[3], "xs": [True] * it[3]}
         for it in self.ast["items"]:
             if it[0] == "assign":
                 self.procs.append({"kind": "assign", "lhs": it[1], "rhs": it[2], "reads": self.reads_of(it[2]) | self.reads_of_lhs(it[1])})
@@ -370,10 +383,23 @@ class Design:
                 self.procs.append({"kind": "sync", "clk": it[1], "body": it[2]})
             elif it[0] == "initial":
                 self.run_initial(it[1])
+        # legality (1364-2005 6.1, 6.2): continuous assignments drive nets, procedural assignments drive variables, inputs are not driven
+        for p in self.procs:
+            if p["kind"] == "assign":
+                for n in self._names(p["lhs"]):
+                    if n in self.vars and (self.vars[n]["kind"] != "wire" or self.vars[n]["dir"] == "input"):
+                        raise VError("continuous assignment to %s %r" % ("input" if self.vars[n]["dir"] == "input" else "reg", n))
+            else:
+                for n in self.targets_of_stmt(p["body"], set()):
+                    if n in self.vars and (self.vars[n]["kind"] != "reg" or self.vars[n]["dir"] == "input"):
+                        raise VError("procedural assignment to net %r" % n)
         for name, e in inits:
             t = self.typ(e)
+            self.tflag = False
             v = self.eval(e, max(t[0], self.vars[name]["width"]), t[1])
-            self.vars[name]["val"] = None if v is None else v & mask(self.vars[name]["width"])
+            self.vars[name]["val"] = v & mask(self.vars[name]["width"])
+            self.vars[name]["x"] = self.tflag
+        self.uninitialised = sorted(n for n, v in self.vars.items() if v["x"] and n not in self.inputs)
         self.readers = {}
         for p in self.procs:
             for r in p.get("reads", ()):
@@ -381,9 +407,10 @@ class Design:
         self.nba = []
         self.active = []
         self.steps = 0
-        if t0_policy == "settle":
-            self.active = [p for p in self.procs if p["kind"] in ("assign", "comb")]
-            self.settle()
+        self.order_choices = 0
+        # continuous assignments are evaluated at time zero under every policy; always @(*) blocks only under 'settle'
+        self.active = [p for p in self.procs if p["kind"] == "assign" or (p["kind"] == "comb" and t0_policy == "settle")]
+        self.settle()
 
     # ---- static analysis
     def reads_of(self, e):
@@ -450,6 +477,32 @@ class Design:
             return set()
         raise VError("reads_of_stmt: %r" % (st,))
 
+    def targets_of_stmt(self, st, acc):
+        """-> set of (kind, name) assigned anywhere inside st."""
+        k = st[0]
+        if k in ("nba", "ba"):
+            self._lhs_names(st[1], acc)
+        elif k == "block":
+            for x in st[1]:
+                self.targets_of_stmt(x, acc)
+        elif k == "if":
+            self.targets_of_stmt(st[2], acc)
+            if st[3] is not None:
+                self.targets_of_stmt(st[3], acc)
+        elif k == "case":
+            for _, b in st[2]:
+                self.targets_of_stmt(b, acc)
+            if st[3] is not None:
+                self.targets_of_stmt(st[3], acc)
+        return acc
+
+    def _lhs_names(self, l, acc):
+        if l[0] == "lcat":
+            for x in l[1]:
+                self._lhs_names(x, acc)
+        else:
+            acc.add(l[1])
+
     # ---- types (self-determined width, signedness)
     def typ(self, e):
         k = e[0]
@@ -475,7 +528,7 @@ class Design:
                 return 1, False
             return self.cint(sel[1]) - self.cint(sel[2]) + 1, False
         if k == "un":
-            if e[1] in ("!", "&", "|", "^") and e[1] != "-" and e[1] != "~" and e[1] != "+":
+            if e[1] in ("!", "&", "|", "^"):
                 return 1, False
             return self.typ(e[2])
         if k == "bin":
@@ -504,15 +557,13 @@ class Design:
             return e[1]
         raise VError("constant expected: %r" % (e,))
 
-    # ---- evaluation: eval(e, W, S) -> int modulo 2^W, or None (X)
+    # ---- evaluation: eval(e, W, S) -> int modulo 2^W; reading a flagged object sets self.tflag
     def self_eval(self, e):
         w, s = self.typ(e)
         return self.eval(e, w, s), w, s
 
     def ext(self, v, w, s, W, S):
         """extend a self-determined value (w bits, own sign s) into a context of W bits and type S."""
-        if v is None:
-            return None
         v &= mask(w)
         if W > w and S and s and (v >> (w - 1)) & 1:
             v |= mask(W) & ~mask(w)
@@ -533,15 +584,11 @@ class Design:
                 val, tot = 0, 0
                 for x in e[1]:
                     v, w, _ = self.self_eval(x)
-                    if v is None:
-                        return None
                     val = (val << w) | (v & mask(w))
                     tot += w
             else:
                 n = self.cint(e[1])
                 v, w, _ = self.self_eval(e[2])
-                if v is None:
-                    return None
                 val, tot = 0, 0
                 for _ in range(n):
                     val = (val << w) | (v & mask(w))
@@ -549,18 +596,14 @@ class Design:
             return self.ext(val, tot, False, W, S)
         if k == "un":
             op = e[1]
-            if op in ("!",):
+            if op == "!":
                 v, w, _ = self.self_eval(e[2])
-                return None if v is None else self.ext(int(v == 0), 1, False, W, S)
+                return self.ext(int(v == 0), 1, False, W, S)
             if op in ("&", "|", "^"):
                 v, w, _ = self.self_eval(e[2])
-                if v is None:
-                    return None
                 r = {"&": int(v == mask(w)), "|": int(v != 0), "^": bin(v).count("1") & 1}[op]
                 return self.ext(r, 1, False, W, S)
             v = self.eval(e[2], W, S)
-            if v is None:
-                return None
             if op == "~":
                 return ~v & mask(W)
             if op == "-":
@@ -568,8 +611,9 @@ class Design:
             return v
         if k == "cond":
             c, _, _ = self.self_eval(e[1])
-            if c is None:
-                return None
+            if self.tflag:
+                # undefined selector: both branches are evaluated by 1364 (bitwise merge); the result is flagged anyway
+                pass
             return self.eval(e[2] if c else e[3], W, S)
         if k == "bin":
             op = e[1]
@@ -577,8 +621,6 @@ class Design:
                 ta, tb = self.typ(e[2]), self.typ(e[3])
                 m, sg = max(ta[0], tb[0]), ta[1] and tb[1]
                 a, b = self.eval(e[2], m, sg), self.eval(e[3], m, sg)
-                if a is None or b is None:
-                    return None
                 if sg:
                     a, b = to_signed(a, m), to_signed(b, m)
                 r = {"==": a == b, "!=": a != b, "<": a < b, "<=": a <= b, ">": a > b, ">=": a >= b}[op]
@@ -586,15 +628,11 @@ class Design:
             if op in ("&&", "||"):
                 a, _, _ = self.self_eval(e[2])
                 b, _, _ = self.self_eval(e[3])
-                if a is None or b is None:
-                    return None
                 r = (a != 0 and b != 0) if op == "&&" else (a != 0 or b != 0)
                 return self.ext(int(r), 1, False, W, S)
             if op in ("<<", ">>", "<<<", ">>>"):
                 a = self.eval(e[2], W, S)
                 b, wb, _ = self.self_eval(e[3])
-                if a is None or b is None:
-                    return None
                 b &= mask(wb)
                 if op in ("<<", "<<<"):
                     return (a << b) & mask(W) if b < 4096 else 0
@@ -602,8 +640,6 @@ class Design:
                     return (to_signed(a, W) >> min(b, W + 1)) & mask(W)
                 return (a >> b) & mask(W) if b < 4096 else 0
             a, b = self.eval(e[2], W, S), self.eval(e[3], W, S)
-            if a is None or b is None:
-                return None
             if op == "+":
                 return (a + b) & mask(W)
             if op == "-":
@@ -623,24 +659,26 @@ class Design:
         if name in self.mems:
             m = self.mems[name]
             idx, _, _ = self.self_eval(sels[0][1])
-            if idx is None or idx >= m["depth"]:
-                return None, m["width"] if len(sels) == 1 else self.typ(e)[0], False
+            w = m["width"] if len(sels) == 1 else self.typ(e)[0]
+            if idx >= m["depth"]:
+                self.tflag = True          # out-of-range read: X
+                return 0, w, False
+            if m["xs"][idx]:
+                self.tflag = True
             v = m["words"][idx]
             if len(sels) == 1:
                 return v, m["width"], False
             sel = sels[1]
         else:
             var = self.vars[name]
+            if var["x"]:
+                self.tflag = True
             v = var["val"]
             if not sels:
                 return v, var["width"], var["signed"]
             sel = sels[0]
-        if v is None:
-            return None, self.typ(e)[0], False
         if sel[0] == "idx":
             i, _, _ = self.self_eval(sel[1])
-            if i is None:
-                return None, 1, False
             return (v >> i) & 1, 1, False
         hi, lo = self.cint(sel[1]), self.cint(sel[2])
         return (v >> lo) & mask(hi - lo + 1), hi - lo + 1, False
@@ -651,94 +689,120 @@ class Design:
             return sum(self.lhs_width(x) for x in l[1])
         return self.typ(("ref", l[1], l[2]))[0]
 
-    def resolve_lhs(self, l, value):
-        """-> list of updates (kind, name, index-or-None, lo, width, value) with the select expressions evaluated now."""
+    def resolve_lhs(self, l, value, x):
+        """-> list of updates (kind, name, index-or-None, lo, width, value, x) with the select expressions evaluated now."""
         if l[0] == "lcat":
             ups = []
-            tot = self.lhs_width(l)
-            pos = tot
+            pos = self.lhs_width(l)
             for part in l[1]:
                 w = self.lhs_width(part)
                 pos -= w
-                ups += self.resolve_lhs(part, None if value is None else (value >> pos) & mask(w))
+                ups += self.resolve_lhs(part, (value >> pos) & mask(w), x)
             return ups
         name, sels = l[1], l[2]
-        if name in self.mems:
-            m = self.mems[name]
-            idx, _, _ = self.self_eval(sels[0][1])
-            lo, w = 0, m["width"]
-            if len(sels) > 1:
-                sel = sels[1]
+        save = self.tflag
+        self.tflag = False
+        try:
+            if name in self.mems:
+                m = self.mems[name]
+                idx, _, _ = self.self_eval(sels[0][1])
+                lo, w = 0, m["width"]
+                if len(sels) > 1:
+                    sel = sels[1]
+                    if sel[0] == "idx":
+                        lo, w = self.self_eval(sel[1])[0], 1
+                    else:
+                        lo = self.cint(sel[2])
+                        w = self.cint(sel[1]) - lo + 1
+                if self.tflag:
+                    # write through an undefined address: any word may have been hit - flag the whole memory
+                    return [("memall", name, None, 0, 0, 0, True)]
+                return [("mem", name, idx, lo, w, value, x)]
+            var = self.vars[name]
+            lo, w = 0, var["width"]
+            if sels:
+                sel = sels[0]
                 if sel[0] == "idx":
                     lo, w = self.self_eval(sel[1])[0], 1
                 else:
                     lo = self.cint(sel[2])
                     w = self.cint(sel[1]) - lo + 1
-            return [("mem", name, idx, lo, w, value)]
-        var = self.vars[name]
-        lo, w = 0, var["width"]
-        if sels:
-            sel = sels[0]
-            if sel[0] == "idx":
-                lo, w = self.self_eval(sel[1])[0], 1
-            else:
-                lo = self.cint(sel[2])
-                w = self.cint(sel[1]) - lo + 1
-        return [("var", name, None, lo, w, value)]
+            return [("var", name, None, lo, w, value, x or self.tflag)]
+        finally:
+            self.tflag = save
 
-    def apply(self, up):
-        kind, name, idx, lo, w, value = up
+    def apply(self, up, trigger=True):
+        kind, name, idx, lo, w, value, x = up
         changed = False
-        if kind == "mem":
+        if kind == "memall":
             m = self.mems[name]
-            if idx is None or idx >= m["depth"] or lo is None:
+            if not all(m["xs"]):
+                m["xs"] = [True] * m["depth"]
+                changed = True
+        elif kind == "mem":
+            m = self.mems[name]
+            if idx >= m["depth"]:
                 return False
-            old = m["words"][idx]
-            if value is None:
-                new = None
-            elif w == m["width"]:
-                new = value & mask(w)
-            elif old is None:
-                new = None      # partial write into an X word: stays X as a whole (pessimistic)
+            old, oldx = m["words"][idx], m["xs"][idx]
+            if w == m["width"]:
+                new, newx = value & mask(w), x
             else:
                 new = (old & ~(mask(w) << lo)) | ((value & mask(w)) << lo)
-            if new != old:
-                m["words"][idx] = new
+                newx = oldx or x
+            if new != old or newx != oldx:
+                m["words"][idx], m["xs"][idx] = new, newx
                 changed = True
         else:
             var = self.vars[name]
-            old = var["val"]
-            if lo is None:
+            old, oldx = var["val"], var["x"]
+            if lo >= var["width"]:
                 return False
-            if value is None:
-                new = None
-            elif w == var["width"]:
-                new = value & mask(w)
-            elif old is None:
-                new = None      # partial write into an X variable: stays X as a whole (pessimistic)
+            if w == var["width"]:
+                new, newx = value & mask(w), x
             else:
                 new = (old & ~(mask(w) << lo)) | ((value & mask(w)) << lo)
-            if new != old:
-                var["val"] = new
+                new &= mask(var["width"])
+                newx = oldx or x
+            if new != old or newx != oldx:
+                var["val"], var["x"] = new, newx
                 changed = True
-        if changed:
-            for p in self.readers.get(name, ()):
-                if p not in self.active:
-                    self.active.append(p)
+        if changed and trigger:
+            self.wake(name)
         return changed
+
+    def wake(self, name):
+        for p in self.readers.get(name, ()):
+            if p not in self.active:
+                self.active.append(p)
+
+    def current(self, kind, name, idx):
+        if kind == "memall":
+            return tuple(self.mems[name]["xs"])
+        if kind == "mem":
+            m = self.mems[name]
+            return (m["words"][idx], m["xs"][idx]) if idx < m["depth"] else None
+        return (self.vars[name]["val"], self.vars[name]["x"])
 
     def assign(self, l, rhs, blocking):
         lw = self.lhs_width(l)
         tw, ts = self.typ(rhs)
-        v = self.eval(rhs, max(lw, tw), ts)
-        if v is not None:
-            v &= mask(lw)
-        ups = self.resolve_lhs(l, v)
+        self.tflag = False
+        v = self.eval(rhs, max(lw, tw), ts) & mask(lw)
+        ups = self.resolve_lhs(l, v, self.tflag or self.ctx > 0)
         if blocking:
             for u in ups:
                 self.apply(u)
         else:
             self.nba.extend(ups)
+
+    def flag_targets(self, st, blocking_ok=True):
+        """the statement was NOT executed because of an undefined condition: what it would have assigned is undefined."""
+        for name in sorted(self.targets_of_stmt(st, set())):
+            if name in self.mems:
+                self.nba.append(("memall", name, None, 0, 0, 0, True))
+            else:
+                var = self.vars[name]
+                self.nba.append(("var", name, None, 0, 0, 0, True))
 
     # ---- statements
     def exec_stmt(self, st):
@@ -747,30 +811,44 @@ class Design:
             for x in st[1]:
                 self.exec_stmt(x)
         elif k == "if":
+            self.tflag = False
             c, _, _ = self.self_eval(st[1])
-            if c is None:
-                # X condition: else branch (1364: not true)
-                if st[3] is not None:
-                    self.exec_stmt(st[3])
-            elif c:
-                self.exec_stmt(st[2])
-            elif st[3] is not None:
-                self.exec_stmt(st[3])
+            und = self.tflag
+            if und:
+                self.ctx += 1
+            taken, other = (st[2], st[3]) if c else (st[3], st[2])
+            if taken is not None:
+                self.exec_stmt(taken)
+            if und:
+                if other is not None:
+                    self.flag_targets(other)
+                self.ctx -= 1
         elif k == "case":
             te = self.typ(st[1])
             ws = [te] + [self.typ(kk) for kk, _ in st[2]]
             W = max(w for w, _ in ws)
             S = all(s for _, s in ws)
+            self.tflag = False
             v = self.eval(st[1], W, S)
-            done = False
-            if v is not None:
+            und = self.tflag
+            if und:
+                self.ctx += 1
+            chosen = None
+            for kk, body in st[2]:
+                if self.eval(kk, W, S) == v:
+                    chosen = body
+                    break
+            if chosen is None:
+                chosen = st[3]
+            if chosen is not None:
+                self.exec_stmt(chosen)
+            if und:
                 for kk, body in st[2]:
-                    if self.eval(kk, W, S) == v:
-                        self.exec_stmt(body)
-                        done = True
-                        break
-            if not done and st[3] is not None:
-                self.exec_stmt(st[3])
+                    if body is not chosen:
+                        self.flag_targets(body)
+                if st[3] is not None and st[3] is not chosen:
+                    self.flag_targets(st[3])
+                self.ctx -= 1
         elif k == "nba":
             self.assign(st[1], st[2], False)
         elif k == "ba":
@@ -789,10 +867,19 @@ class Design:
             content = self.data_files.get(fname)
             if content is None:
                 raise VError("data file %r not provided" % fname)
-            words = [int(x, 16) for x in content.split()]
+            toks = content.split()
+            for t in toks:
+                if not re.match(r"^[0-9a-fA-F_xXzZ]+$", t):
+                    raise VError("data file %r: %r is not a hexadecimal word" % (fname, t))
             m = self.mems[mem]
-            for i, wd in enumerate(words[:m["depth"]]):
-                m["words"][i] = wd & mask(m["width"])
+            if len(toks) > m["depth"]:
+                raise VError("data file %r has %d words for a memory of depth %d" % (fname, len(toks), m["depth"]))
+            for i, t in enumerate(toks):
+                wd = int(t, 16)
+                if wd >> m["width"]:
+                    raise VError("data file %r word %d (%s) does not fit %d bits" % (fname, i, t, m["width"]))
+                m["words"][i] = wd
+                m["xs"][i] = False
         elif st[0] == "sys":
             pass
         else:
@@ -805,26 +892,60 @@ class Design:
             while self.active:
                 n += 1
                 if n > limit:
-                    raise VError("no convergence (combinational loop?)")
+                    raise VError("no convergence after %d process evaluations in one time step (zero-delay oscillation); "
+                                 "still active: %s" % (n, ", ".join(sorted({self.proc_name(p) for p in self.active})[:6])))
                 if self.rng is not None and len(self.active) > 1:
                     i = self.rng.randrange(len(self.active))
+                    self.order_choices += 1
                 else:
                     i = 0
                 p = self.active.pop(i)
+                self.ctx = 0
                 if p["kind"] == "assign":
                     self.assign(p["lhs"], p["rhs"], True)
-                elif p["kind"] in ("comb", "sync"):
+                else:
                     self.exec_stmt(p["body"])
             if not self.nba:
                 break
             ups, self.nba = self.nba, []
-            for u in ups:
-                self.apply(u)
+            if self.glitch:
+                # strict reading: every update is an event of its own (a default assignment followed by an override glitches)
+                for u in ups:
+                    self.apply(self.fix_flag(u))
+            else:
+                # Verilator / synthesis reading: the updates of one NBA region are applied in order, processes are woken on the
+                # NET change of a variable only (zero-width glitches do not re-trigger always @(*) blocks)
+                before = {}
+                for u in ups:
+                    k = (u[0], u[1], u[2])
+                    if k not in before:
+                        before[k] = self.current(*k)
+                    self.apply(self.fix_flag(u), trigger=False)
+                for k, old in before.items():
+                    if self.current(*k) != old:
+                        self.wake(k[1])
         self.steps += n
+
+    def fix_flag(self, u):
+        # ("var", name, None, 0, 0, 0, True) = "flag only": keep the value, set the flag
+        if u[0] == "var" and u[4] == 0:
+            var = self.vars[u[1]]
+            return ("var", u[1], None, 0, var["width"], var["val"], True)
+        return u
+
+    def proc_name(self, p):
+        if p["kind"] == "assign":
+            return "assign " + ",".join(sorted(self._names(p["lhs"])))
+        return "always(" + ",".join(sorted(self.targets_of_stmt(p["body"], set()))[:4]) + ")"
+
+    def _names(self, l):
+        acc = set()
+        self._lhs_names(l, acc)
+        return acc
 
     def set_input(self, name, value):
         var = self.vars[name]
-        self.apply(("var", name, None, 0, var["width"], value & mask(var["width"])))
+        self.apply(("var", name, None, 0, var["width"], value & mask(var["width"]), False))
 
     def posedge(self, clocks):
         """rising edge of the named clock signals in the same time step."""
@@ -840,4 +961,9 @@ class Design:
                 self.vars[c]["val"] = 0
 
     def get(self, name):
-        return self.vars[name]["val"]
+        v = self.vars[name]
+        return None if v["x"] else v["val"]
+
+    def get_word(self, mem, i):
+        m = self.mems[mem]
+        return None if m["xs"][i] else m["words"][i]
